@@ -428,6 +428,7 @@ func init() {
 			n = f.n
 		}
 		writerQueueK1(rep, m, r, 10*n)
+		truncateK1(rep, m, r, 20*n)
 		for i := 0; i < n; i++ {
 			if rep.outOfTime() {
 				break
